@@ -172,6 +172,7 @@ type StepB struct {
 	When   int     `json:"when,omitempty"`   // 0 add, 1 pre-cell, 2 render, 3 post-cell
 	Target int     `json:"target,omitempty"` // 0 itself, 1 cell, 2 row
 	Via    string  `json:"via,omitempty"`    // render: invoke | csv | texttable
+	N      int     `json:"n,omitempty"`      // reg: the registration is made N times (several failing callbacks in one slot: one round, several errors)
 }
 
 type CaseB struct {
@@ -385,8 +386,10 @@ func checkB(c CaseB) *ev.Violation {
 			if owner == nil {
 				break
 			}
-			nreg++
-			t.RegisterPropertyCallback(owner, whens[st.When%4], targets[st.Target%3], &failCB{reg: nreg, w: w})
+			for k := 0; k < 1 || k < st.N; k++ {
+				nreg++
+				t.RegisterPropertyCallback(owner, whens[st.When%4], targets[st.Target%3], &failCB{reg: nreg, w: w})
+			}
 		case "render":
 			switch st.Via {
 			case "csv":
